@@ -971,6 +971,7 @@ pub fn udp_bind() -> Result<UdpSocket, MetricError> {
 }
 
 /// adds a value to a counter
+#[cfg(not(sozu_verif))]
 #[macro_export]
 macro_rules! count (
   ($key:expr, $value: expr) => ({
@@ -982,6 +983,7 @@ macro_rules! count (
 );
 
 /// adds 1 to a counter
+#[cfg(not(sozu_verif))]
 #[macro_export]
 macro_rules! incr (
   ($key:expr) => (count!($key, 1));
@@ -1001,6 +1003,7 @@ macro_rules! decr (
   ($key:expr) => (count!($key, -1))
 );
 
+#[cfg(not(sozu_verif))]
 #[macro_export]
 macro_rules! gauge (
   ($key:expr, $value: expr) => ({
@@ -1021,6 +1024,7 @@ macro_rules! gauge (
   }
 );
 
+#[cfg(not(sozu_verif))]
 #[macro_export]
 macro_rules! gauge_add (
   ($key:expr, $value: expr) => ({
@@ -1041,6 +1045,7 @@ macro_rules! gauge_add (
   }
 );
 
+#[cfg(not(sozu_verif))]
 #[macro_export]
 macro_rules! time (
   ($key:expr, $value: expr) => ({
@@ -1064,6 +1069,7 @@ macro_rules! time (
   })
 );
 
+#[cfg(not(sozu_verif))]
 #[macro_export]
 macro_rules! record_backend_metrics (
   ($cluster_id:expr, $backend_id:expr, $response_time: expr, $backend_connection_time: expr, $bin: expr, $bout: expr) => {
@@ -1082,6 +1088,46 @@ macro_rules! record_backend_metrics (
 
       m.receive_metric($crate::metrics::names::backend::REQUESTS, Some(cluster_id), Some(backend_id), MetricValue::Count(1));
     });
+  }
+);
+
+/// verification hook (`--cfg sozu_verif`): the metrics macros evaluate their value
+/// operands (as the real ones do, outside the `METRICS` closure) and record nothing,
+/// so that symbolic-execution harnesses never reach the `METRICS` thread-local.
+#[cfg(sozu_verif)]
+#[macro_export]
+macro_rules! count (
+  ($key:expr, $value: expr) => ({ let _v = $value; })
+);
+#[cfg(sozu_verif)]
+#[macro_export]
+macro_rules! incr (
+  ($key:expr) => (count!($key, 1));
+  ($key:expr, $cluster_id:expr, $backend_id:expr) => {{}}
+);
+#[cfg(sozu_verif)]
+#[macro_export]
+macro_rules! gauge (
+  ($key:expr, $value: expr) => ({ let _v = $value; });
+  ($key:expr, $value:expr, $cluster_id:expr, $backend_id:expr) => ({ let _v = $value; })
+);
+#[cfg(sozu_verif)]
+#[macro_export]
+macro_rules! gauge_add (
+  ($key:expr, $value: expr) => ({ let _v = $value; });
+  ($key:expr, $value:expr, $cluster_id:expr, $backend_id:expr) => ({ let _v = $value; })
+);
+#[cfg(sozu_verif)]
+#[macro_export]
+macro_rules! time (
+  ($key:expr, $value: expr) => ({ let _v = $value; });
+  ($key:expr, $cluster_id:expr, $value: expr) => ({ let _v = $value; })
+);
+#[cfg(sozu_verif)]
+#[macro_export]
+macro_rules! record_backend_metrics (
+  ($cluster_id:expr, $backend_id:expr, $response_time: expr, $backend_connection_time: expr, $bin: expr, $bout: expr) => {
+    let _ = ($response_time, $backend_connection_time, $bin, $bout);
   }
 );
 
